@@ -215,6 +215,11 @@ pub trait Group: Sync {
     fn driver_line(&self, line: &str) -> String {
         line.to_owned()
     }
+    /// the driver text may depend on what the implementation was observed to do (trace validation:
+    /// the observed event sequence is replayed in the model). Default: `driver_line`.
+    fn driver_line_with(&self, line: &str, _impl_out: &str) -> String {
+        self.driver_line(line)
+    }
     /// whether the model is expected to predict the implementation's output for this line.
     /// (`false` = explicitly excluded input region: oracle only.)
     fn compare_with_model(&self, _line: &str) -> bool {
@@ -299,7 +304,7 @@ fn still_fails(g: &dyn Group, ctx: &Ctx, line: &str, want_oracle: bool) -> bool 
     if !g.compare_with_model(line) {
         return false;
     }
-    match run_driver(&ctx.driver, &[g.driver_line(line)]) {
+    match run_driver(&ctx.driver, &[g.driver_line_with(line, &io)]) {
         Ok(m) => g.canon(&m[0]) != g.canon(&io) && m[0] != "bad-op",
         Err(_) => false,
     }
@@ -338,7 +343,7 @@ pub fn run_group(g: &dyn Group, ctx: &Ctx, rng: &mut Rng, corpus: &[String], onl
     }
     let impl_out = run_lines(g, ctx, &lines);
     let cmp_idx: Vec<usize> = (0..lines.len()).filter(|i| g.compare_with_model(&lines[*i]) && !g.inconclusive(&impl_out[*i])).collect();
-    let cmp_lines: Vec<String> = cmp_idx.iter().map(|i| g.driver_line(&lines[*i])).collect();
+    let cmp_lines: Vec<String> = cmp_idx.iter().map(|i| g.driver_line_with(&lines[*i], &impl_out[*i])).collect();
     let mut res = GroupResult { name: g.name().into(), rule: g.rule().into(), ..Default::default() };
     let model_out = match run_driver(&ctx.driver, &cmp_lines) {
         Ok(m) => m,
@@ -377,7 +382,7 @@ pub fn run_group(g: &dyn Group, ctx: &Ctx, rng: &mut Rng, corpus: &[String], onl
             if res.disagreements.len() < 3 {
                 let small = shrink_line(g, ctx, &lines[*i], false);
                 let io = guarded(|| g.run_impl(ctx, &small));
-                let mo = run_driver(&ctx.driver, &[g.driver_line(&small)]).map(|v| v[0].clone()).unwrap_or_default();
+                let mo = run_driver(&ctx.driver, &[g.driver_line_with(&small, &io)]).map(|v| v[0].clone()).unwrap_or_default();
                 res.disagreements.push(serde_json::json!({"group": g.name(), "line": small, "original_line": lines[*i], "impl": io, "model": mo}));
             } else {
                 res.disagreements.push(serde_json::json!({"group": g.name(), "line": lines[*i], "impl": a, "model": b}));
